@@ -9,7 +9,7 @@ use self::asm::AsmSource;
 use self::command::{Command, CommandReader, Label, Location, MemoryLocation};
 use crate::air::AsmLine;
 use crate::output::{Condition, Output};
-use crate::runtime::{RunState, HALT_ADDRESS, USER_MEMORY_END};
+use crate::runtime::{RunState, USER_MEMORY_END};
 use crate::symbol::with_symbol_table;
 use crate::{dprintln, features};
 
@@ -168,7 +168,9 @@ impl Debugger {
                 );
                 self.status = Status::WaitForAction;
             }
-            Ordering::Greater if state.pc() != HALT_ADDRESS => {
+            // Includes `HALT_ADDRESS`: `HALT` is never executed while the debugger is attached, so
+            // the PC can only have been set to it by the program or user
+            Ordering::Greater => {
                 dprintln!(
                     Alternate,
                     Error,
